@@ -14,16 +14,7 @@ theorem gen_layout_wf : WellFormed genLayout = true := by decide
 /-! ## shell-style matching -/
 
 /-- **the executable matcher is exactly the declarative semantics**, for all patterns and all names -/
-theorem glob_sound_complete (p s : List Char) : globMatch p s = true ↔ Matches p s := by
-  unfold globMatch
-  rw [matchSet_iff]
-  constructor
-  · rintro ⟨q, hq, hm⟩
-    simp only [List.mem_singleton] at hq
-    subst hq
-    exact hm
-  · intro h
-    exact ⟨p, List.mem_singleton.2 rfl, h⟩
+theorem glob_sound_complete (p s : List Char) : globMatch p s = true ↔ Matches p s := globMatch_iff p s
 
 /-! the bracket expressions of `Matches` in their everyday forms (the general case — `]` first, hyphens at the
 ends, several ranges, empty ranges, CPython's corner cases — is `classMem`, compared with CPython on every run) -/
@@ -132,61 +123,26 @@ theorem unpack_valueError_iff (L : Layout) (bs : Bytes) :
 
 /-! ## the responder -/
 
-/- The statement of the property, at full strength (every context, every name):
-
-    theorem respond_iff {L} (hwf : WellFormed L = true) (c : Ctx) (d : Dgram) (wgf cnf : List Char)
-        (hreq : IsInfoRequest L d.data) (hw : reqWgFilter L d.data = some wgf) (hc : reqCtxFilter L d.data = some cnf) :
-        (∃ a out, handleRead L c d = .sent a out) ↔ (Matches wgf c.workgroup ∧ Matches cnf c.name)
-
-   It is FALSE of the code as it is (`respond_iff_fails_overlong_workgroup` below, replayed on the real responder):
-   `create` raises `ValueError` when a name does not fit its 64-byte field.  What is missing is exactly the two
-   hypotheses `hfitN`, `hfitW` of `respond_iff_partial`; `respond_overlong` says what happens without them.
-   Context names always satisfy `hfitN` (`is_valid_object_name`: ≤ 63 ASCII characters); the workgroup name is not
-   validated anywhere. -/
-
-/-- **answers iff both filters match** — for every context whose names fit the packet's name fields. -/
-theorem respond_iff_partial {L : Layout} (hwf : WellFormed L = true) (c : Ctx) (d : Dgram) (wgf cnf : List Char)
-    (hreq : IsInfoRequest L d.data) (hw : reqWgFilter L d.data = some wgf) (hc : reqCtxFilter L d.data = some cnf)
-    (hfitN : (cstr (utf8Encode c.name)).length ≤ L.nameLen)
-    (hfitW : (cstr (utf8Encode c.workgroup)).length ≤ L.wgLen) :
+/-- **answers iff both filters match** — for *every* context that can exist (its names passed
+`QMI_Context.__init__`, which since fix eeba404 also checks the workgroup name), every request, every pattern.
+(Before the fix this needed two extra hypotheses: an over-long workgroup name made `create` raise.) -/
+theorem respond_iff {L : Layout} (hwf : WellFormed L = true) (c : Ctx) (d : Dgram) (wgf cnf : List Char)
+    (hadm : admitContext L c.name c.workgroup = true)
+    (hreq : IsInfoRequest L d.data) (hw : reqWgFilter L d.data = some wgf) (hc : reqCtxFilter L d.data = some cnf) :
     (∃ a out, handleRead L c d = .sent a out) ↔ (Matches wgf c.workgroup ∧ Matches cnf c.name) := by
-  rw [handleRead_request (wf_of_wellFormed hwf) c d hreq]
-  unfold handleInfoRequest
-  simp only [Packet.fld]
-  unfold reqWgFilter at hw
-  unfold reqCtxFilter at hc
-  rw [hw]
-  simp only
-  by_cases h1 : globMatch wgf c.workgroup = true
-  · rw [h1]
-    simp only [Bool.not_true, Bool.false_eq_true, if_false]
-    rw [hc]
-    simp only
-    by_cases h2 : globMatch cnf c.name = true
-    · rw [h2]
-      simp only [Bool.not_true, Bool.false_eq_true, if_false]
-      obtain ⟨out, ho⟩ := packResponse_isSome (L := L) d.rid (leNat ((reqFields L d.data).getD 2 []))
-        d.now ((reqFields L d.data).getD 3 []) (utf8Encode c.name) (utf8Encode c.workgroup) c.pid c.port hfitN hfitW
-      rw [ho]
-      simp only
-      constructor
-      · intro _; exact ⟨(glob_sound_complete _ _).1 h1, (glob_sound_complete _ _).1 h2⟩
-      · intro _; exact ⟨d.addr, out, rfl⟩
-    · have h2' : globMatch cnf c.name = false := by simpa using h2
-      rw [h2']
-      simp only [Bool.not_false, if_true]
-      constructor
-      · rintro ⟨a, out, h⟩; cases h
-      · rintro ⟨_, hm⟩; exact absurd ((glob_sound_complete _ _).2 hm) h2
-  · have h1' : globMatch wgf c.workgroup = false := by simpa using h1
-    rw [h1']
-    simp only [Bool.not_false, if_true]
-    constructor
-    · rintro ⟨a, out, h⟩; cases h
-    · rintro ⟨hm, _⟩; exact absurd ((glob_sound_complete _ _).2 hm) h1
+  have wf := wf_of_wellFormed hwf
+  obtain ⟨h1, h2⟩ := admit_fits_cstr wf hadm
+  exact respond_iff_of_fit wf c d wgf cnf hreq hw hc h1 h2
 
-/-- when a name does not fit, a request that matches is *not* answered: `create` raises `ValueError`,
-which leaves `_handle_read` (the defect recorded in known_findings.d/C18.json) -/
+/-- what `QMI_Context.__init__` lets through can be reported: both names fit their fields and contain no NUL -/
+theorem admit_only_reportable {L : Layout} (hwf : WellFormed L = true) (name wg : List Char)
+    (h : admitContext L name wg = true) :
+    (utf8Encode name).length ≤ L.nameLen ∧ (utf8Encode wg).length ≤ L.wgLen ∧
+    (∀ b ∈ utf8Encode name, b ≠ 0) ∧ (∀ b ∈ utf8Encode wg, b ≠ 0) :=
+  admit_fits (wf_of_wellFormed hwf) h
+
+/-- the responder alone, handed names that do not fit (no context can have them any more): a request that
+matches is not answered, `create` raises `ValueError`, which leaves `_handle_read` -/
 theorem respond_overlong {L : Layout} (hwf : WellFormed L = true) (c : Ctx) (d : Dgram) (wgf cnf : List Char)
     (hreq : IsInfoRequest L d.data) (hw : reqWgFilter L d.data = some wgf) (hc : reqCtxFilter L d.data = some cnf)
     (hm1 : Matches wgf c.workgroup) (hm2 : Matches cnf c.name)
@@ -199,36 +155,24 @@ theorem respond_overlong {L : Layout} (hwf : WellFormed L = true) (c : Ctx) (d :
   unfold reqCtxFilter at hc
   rw [hw]
   simp only
-  rw [(glob_sound_complete _ _).2 hm1]
+  rw [(globMatch_iff _ _).2 hm1]
   simp only [Bool.not_true, Bool.false_eq_true, if_false]
   rw [hc]
   simp only
-  rw [(glob_sound_complete _ _).2 hm2]
+  rw [(globMatch_iff _ _).2 hm2]
   simp only [Bool.not_true, Bool.false_eq_true, if_false]
   rw [(packResponse_none_iff (L := L) _ _ _ _ _ _ _ _).2 hbad]
 
-/-- the unrestricted `respond_iff` is **false** of the code as it is (live layout): a context whose workgroup
-name is one byte too long never answers although both filters match.  Replayed on the real responder by the
-harness (systematic family `workgroup-too-long`; known finding). -/
-theorem respond_iff_fails_overlong_workgroup :
-    ¬ (∀ (c : Ctx) (d : Dgram) (wgf cnf : List Char), IsInfoRequest genLayout d.data →
-        reqWgFilter genLayout d.data = some wgf → reqCtxFilter genLayout d.data = some cnf →
-        ((∃ a out, handleRead genLayout c d = .sent a out) ↔ (Matches wgf c.workgroup ∧ Matches cnf c.name))) := by
-  intro h
-  have h1 : IsInfoRequest genLayout witDgram.data := by decide +kernel
-  have h2 : reqWgFilter genLayout witDgram.data = some ['*'] := by decide +kernel
-  have h3 : reqCtxFilter genLayout witDgram.data = some ['*'] := by decide +kernel
-  have h4 : globMatch ['*'] witCtx.workgroup = true := by decide +kernel
-  have h5 : globMatch ['*'] witCtx.name = true := by decide +kernel
-  have h6 : handleRead genLayout witCtx witDgram = .escaped .valueError := by decide +kernel
-  obtain ⟨a, out, ho⟩ := (h witCtx witDgram ['*'] ['*'] h1 h2 h3).2
-    ⟨(glob_sound_complete _ _).1 h4, (glob_sound_complete _ _).1 h5⟩
-  rw [h6] at ho
-  cases ho
+/-- historical example (a constant, not the source): the context that exposed the defect repaired by eeba404 —
+workgroup name one byte longer than the field.  The responder would still not answer it, but such a context is
+no longer admitted. -/
+example : admitContext genLayout witCtx.name witCtx.workgroup = false ∧
+    admitContext genLayout witCtx.name (witCtx.workgroup.drop 1) = true ∧
+    handleRead genLayout witCtx witDgram = .escaped .valueError := by decide +kernel
 
-/-- non-vacuity of `respond_iff_partial` / `echo_fields`: a request that matches and is answered, with the
-echoed fields written out; and one that does not match -/
-example : IsInfoRequest genLayout exDgram.data ∧ reqWgFilter genLayout exDgram.data = some ['g', '*'] ∧
+/-- non-vacuity of `respond_iff` / `echo_fields`: an admitted context, a request that matches and is answered, with
+the echoed fields written out; and one that does not match -/
+example : admitContext genLayout exCtx.name exCtx.workgroup = true ∧ IsInfoRequest genLayout exDgram.data ∧ reqWgFilter genLayout exDgram.data = some ['g', '*'] ∧
     reqCtxFilter genLayout exDgram.data = some ['c', 't', 'x', '?'] ∧
     handleRead genLayout exCtx exDgram = .sent 7 (exResp 0x1122334455667788) ∧
     handleRead genLayout { exCtx with name := ['c', 't', 'x'] } exDgram = .noMatch := by decide +kernel
@@ -293,6 +237,23 @@ theorem echo_values {L : Layout} (c : Ctx) (r : Packet)
   · rw [h9]; exact sintOf_intBytes _ _ hport.1 hport.2
   · rw [h7, cstr_of_all_ne _ hn0]
   · rw [h8, cstr_of_all_ne _ hw0]
+
+/-- **for every context that can exist** the answer, read back as Python values, carries exactly the context's
+name, workgroup, pid and port (pid/port within `int32`), next to the echoed id and timestamp -/
+theorem echo_admitted {L : Layout} (hwf : WellFormed L = true) (c : Ctx) (d : Dgram)
+    (hadm : admitContext L c.name c.workgroup = true)
+    (hreq : IsInfoRequest L d.data) (hnow : d.now.length = L.tsSz)
+    (hpid : -((256 ^ L.pidSz : Nat) : Int) ≤ 2 * c.pid ∧ 2 * c.pid < ((256 ^ L.pidSz : Nat) : Int))
+    (hport : -((256 ^ L.portSz : Nat) : Int) ≤ 2 * c.port ∧ 2 * c.port < ((256 ^ L.portSz : Nat) : Int))
+    {a : Nat} {out : Bytes} (h : handleRead L c d = .sent a out) :
+    a = d.addr ∧ ∃ r, unpack L out = .ok r ∧ r.kind = .infoResp ∧
+      r.fld 4 = (reqFields L d.data).getD 2 [] ∧ r.fld 5 = (reqFields L d.data).getD 3 [] ∧
+      sintOf (r.fld 6) = c.pid ∧ sintOf (r.fld 9) = c.port ∧
+      utf8Decode (cstr (r.fld 7)) = some c.name ∧ utf8Decode (cstr (r.fld 8)) = some c.workgroup := by
+  obtain ⟨ha, r, hu, hk, _, _, h4, h5, h6, h7, h8, h9⟩ := echo_fields hwf c d hreq hnow h
+  obtain ⟨_, _, hn0, hw0⟩ := admit_fits (wf_of_wellFormed hwf) hadm
+  obtain ⟨v6, v9, v7, v8⟩ := echo_values (L := L) c r h6 h9 h7 h8 hpid hport hn0 hw0
+  exact ⟨ha, r, hu, hk, h4, h5, v6, v9, by rw [v7, utf8_roundtrip], by rw [v8, utf8_roundtrip]⟩
 
 /-! ## junk -/
 
@@ -448,7 +409,7 @@ theorem client_never_self {L : Layout} (hwf : WellFormed L = true) (self : List 
 /-! ## end to end -/
 
 /-- **the whole property in one statement.**  A context asks with filters `wgf`, `cnf` (any text without NUL
-that fits the request); the request reaches any number of running contexts (any names the packet can carry);
+that fits the request); the request reaches any number of running contexts (any contexts `QMI_Context.__init__` admits);
 what they send back is what the asker receives.  Then the discovery call returns, in order, exactly the
 contexts whose workgroup *and* name match the filters, except those carrying the asker's own name — each with
 its own name, address and TCP port. -/
@@ -456,7 +417,7 @@ theorem discovery_end_to_end {L : Layout} (hwf : WellFormed L = true) (self wgf 
     (ts req : Bytes) (hrid : rid < 256 ^ L.idSz) (hts : ts.length = L.tsSz)
     (hw0 : ∀ ch ∈ wgf, ch.toNat ≠ 0) (hc0 : ∀ ch ∈ cnf, ch.toNat ≠ 0)
     (hreq : packRequest L rid ts (utf8Encode wgf) (utf8Encode cnf) = some req)
-    (nodes : List Node) (hadm : ∀ n ∈ nodes, n.Admissible L) :
+    (nodes : List Node) (hrun : ∀ n ∈ nodes, n.Running L) :
     discover L self rid (answersOf L asker req nodes) =
       .ok ((nodes.filter (fun n => globMatch wgf n.ctx.workgroup && globMatch cnf n.ctx.name && n.ctx.name != self)).map
             (fun n => { name := n.ctx.name, addr := n.addr, port := n.ctx.port })) := by
@@ -465,8 +426,8 @@ theorem discovery_end_to_end {L : Layout} (hwf : WellFormed L = true) (self wgf 
   induction nodes with
   | nil => rfl
   | cons n ns ih =>
-    have ih' := ih (fun m hm => hadm m (List.mem_cons_of_mem _ hm))
-    have hn := nodeAnswer_cases wf n (hadm n List.mem_cons_self) asker rid req wgf cnf hrid hir hfw hfc hid (by rw [hft]; exact hts)
+    have ih' := ih (fun m hm => hrun m (List.mem_cons_of_mem _ hm))
+    have hn := nodeAnswer_cases wf n ((hrun n List.mem_cons_self).admissible wf) asker rid req wgf cnf hrid hir hfw hfc hid (by rw [hft]; exact hts)
     unfold answersOf at ih' ⊢
     rw [List.filterMap_cons, List.filter_cons]
     rcases hn with ⟨hg, hno⟩ | ⟨hg, out, p, hsent, hacc, hname, hport⟩
@@ -484,18 +445,18 @@ theorem discovery_reports_exactly_matching_others {L : Layout} (hwf : WellFormed
     (asker rid : Nat) (ts req : Bytes) (hrid : rid < 256 ^ L.idSz) (hts : ts.length = L.tsSz)
     (hw0 : ∀ ch ∈ wgf, ch.toNat ≠ 0) (hc0 : ∀ ch ∈ cnf, ch.toNat ≠ 0)
     (hreq : packRequest L rid ts (utf8Encode wgf) (utf8Encode cnf) = some req)
-    (nodes : List Node) (hadm : ∀ n ∈ nodes, n.Admissible L) :
+    (nodes : List Node) (hrun : ∀ n ∈ nodes, n.Running L) :
     ∃ out, discover L self rid (answersOf L asker req nodes) = .ok out ∧
       ∀ e, e ∈ out ↔ ∃ n ∈ nodes, Matches wgf n.ctx.workgroup ∧ Matches cnf n.ctx.name ∧ n.ctx.name ≠ self ∧
         e = { name := n.ctx.name, addr := n.addr, port := n.ctx.port } := by
-  refine ⟨_, discovery_end_to_end hwf self wgf cnf asker rid ts req hrid hts hw0 hc0 hreq nodes hadm, ?_⟩
+  refine ⟨_, discovery_end_to_end hwf self wgf cnf asker rid ts req hrid hts hw0 hc0 hreq nodes hrun, ?_⟩
   intro e
   simp only [List.mem_map, List.mem_filter, Bool.and_eq_true, bne_iff_ne, ne_eq]
   constructor
   · rintro ⟨n, ⟨hn, ⟨h1, h2⟩, h3⟩, rfl⟩
-    exact ⟨n, hn, (glob_sound_complete _ _).1 h1, (glob_sound_complete _ _).1 h2, h3, rfl⟩
+    exact ⟨n, hn, (globMatch_iff _ _).1 h1, (globMatch_iff _ _).1 h2, h3, rfl⟩
   · rintro ⟨n, hn, h1, h2, h3, rfl⟩
-    exact ⟨n, ⟨hn, ⟨(glob_sound_complete _ _).2 h1, (glob_sound_complete _ _).2 h2⟩, h3⟩, rfl⟩
+    exact ⟨n, ⟨hn, ⟨(globMatch_iff _ _).2 h1, (globMatch_iff _ _).2 h2⟩, h3⟩, rfl⟩
 
 /-- non-vacuity of `client_filters`: own answer kept; answer to another id, request packet, truncated answer
 and the asker's own answer dropped -/
@@ -504,9 +465,9 @@ example : (discover genLayout ['m', 'e'] 77
     some [{ name := exCtx.name, addr := 3, port := 40001 }, { name := exCtx.name, addr := 8, port := 40001 }] ∧
     (discover genLayout exCtx.name 77 [(3, exResp 77)]).toOption = some [] := by decide +kernel
 
-/-- non-vacuity of `discovery_end_to_end`: three admissible nodes, one matching, one matching but the asker
+/-- non-vacuity of `discovery_end_to_end`: three running contexts, one matching, one matching but the asker
 itself, one in another workgroup -/
-example : (∀ n ∈ exNodes, n.Admissible genLayout) ∧
+example : (∀ n ∈ exNodes, n.Running genLayout) ∧
     (discover genLayout ['m', 'e'] 0x1122334455667788 (answersOf genLayout 99 exReq exNodes)).toOption =
       some [{ name := exCtx.name, addr := 11, port := 40001 }] := by decide +kernel
 
